@@ -5,6 +5,7 @@ import (
 	"fmt"
 	"net/http"
 	"os"
+	"regexp"
 	"sort"
 	"strings"
 	"testing"
@@ -39,6 +40,7 @@ type hookProgram struct {
 	Reverse          bool    `json:"reverse"`       // template: list the children highest index first
 	FinalizedForImage string `json:"finalizedForImage"` // template, finalizing: finalized iff the parent (revision) has this image
 	FinalizeKeeps     bool   `json:"finalizeKeeps"`     // template, finalizing: keep asking for the children (step-down not started)
+	IntegralFloat     bool   `json:"integralFloat"`     // const: write the first "replicas":N as N.0 on the wire
 }
 
 func (h *hookProgram) answer(url string, req J) (int, map[string]string, []byte, bool) {
@@ -64,6 +66,9 @@ func (h *hookProgram) answer(url string, req J) (int, map[string]string, []byte,
 	}
 	if h.Kind == "template" {
 		return code, hdr, h.templateAnswer(req), false
+	}
+	if h.Kind == "ordered" || h.Kind == "echo" {
+		return code, hdr, h.statefulAnswer(req), false
 	}
 	resp := J{}
 	finalizing, _ := req["finalizing"].(bool)
@@ -94,8 +99,13 @@ func (h *hookProgram) answer(url string, req J) (int, map[string]string, []byte,
 		resp["resyncAfterSeconds"] = h.Resync
 	}
 	body, _ := k8sjson.Marshal(resp)
+	if h.IntegralFloat {
+		body = integralFloatRe.ReplaceAll(body, []byte(`"replicas":$1.0`))
+	}
 	return code, hdr, body, false
 }
+
+var integralFloatRe = regexp.MustCompile(`"replicas":(\d+)`)
 
 // template: children = Template x parent.spec.replicas, each carrying parent.spec.image (revisioned)
 // and parent.spec.note (may be outside the revision field paths)
@@ -152,6 +162,65 @@ func (h *hookProgram) templateAnswer(req J) []byte {
 		if h.FinalizedForImage != "" {
 			resp["finalized"] = image == h.FinalizedForImage
 		}
+	}
+	body, _ := k8sjson.Marshal(resp)
+	return body
+}
+
+// statefulAnswer: hooks whose answer depends on the observed children.
+// "ordered" (StatefulSet-like): child i+1 is only asked for once children 0..i are observed Ready.
+// "echo": returns every observed child verbatim (resourceVersion and all) plus the constant children not yet there.
+func (h *hookProgram) statefulAnswer(req J) []byte {
+	observed := map[string]J{}
+	if cm, ok := req["children"].(map[string]interface{}); ok {
+		for _, g := range cm {
+			if gm, ok := g.(map[string]interface{}); ok {
+				for name, o := range gm {
+					if om, ok := o.(map[string]interface{}); ok {
+						observed[name] = om
+					}
+				}
+			}
+		}
+	}
+	cl := A{}
+	if h.Kind == "ordered" {
+		for _, c := range h.Children {
+			cl = append(cl, runtime.DeepCopyJSON(c))
+			name := c["metadata"].(map[string]interface{})["name"].(string)
+			o, ok := observed[name]
+			if !ok {
+				break
+			}
+			ready := false
+			if st, ok := o["status"].(map[string]interface{}); ok {
+				if conds, ok := st["conditions"].([]interface{}); ok {
+					for _, cnd := range conds {
+						if cmap, ok := cnd.(map[string]interface{}); ok && cmap["type"] == "Ready" && cmap["status"] == "True" {
+							ready = true
+						}
+					}
+				}
+			}
+			if !ready {
+				break
+			}
+		}
+	} else {
+		seen := map[string]bool{}
+		for name, o := range observed {
+			cl = append(cl, runtime.DeepCopyJSON(o))
+			seen[name] = true
+		}
+		for _, c := range h.Children {
+			if !seen[c["metadata"].(map[string]interface{})["name"].(string)] {
+				cl = append(cl, runtime.DeepCopyJSON(c))
+			}
+		}
+	}
+	resp := J{"children": cl}
+	if h.Status != nil {
+		resp["status"] = runtime.DeepCopyJSON(h.Status)
 	}
 	body, _ := k8sjson.Marshal(resp)
 	return body
